@@ -217,6 +217,22 @@ func (d *Dir) Run(p Project, opt Options, full bool) (out Outcome, root string) 
 	return finish(j, full), root
 }
 
+// RunPath runs the project whose root file is at path (files must exist already).
+func RunPath(path string, opt Options) (out Outcome) {
+	defer func() {
+		if r := recover(); r != nil {
+			out = Outcome{Kind: "panic", Panic: fmt.Sprint(r)}
+			out.Stack = stack()
+			out.Site = repoFrame(out.Stack)
+		}
+	}()
+	j, err := kit.NewJapi(path, opt.core()...)
+	if err != nil {
+		return Outcome{Kind: "err", Msg: "read: " + err.Error(), ErrText: err.Error()}
+	}
+	return finish(j, false)
+}
+
 // Run runs a project: in memory when it has a single file and needs no directory.
 func Run(d *Dir, p Project, opt Options, full bool) Outcome {
 	if len(p.Files) == 1 && len(p.Dirs) == 0 && d == nil {
